@@ -185,7 +185,7 @@ pub fn set_run_t0(t0: tokio::time::Instant) {
     RUN_T0.with(|c| c.set(Some(t0)));
 }
 
-fn sim_ms() -> u64 {
+pub fn sim_ms() -> u64 {
     RUN_T0.with(|c| c.get()).map(|t0| (tokio::time::Instant::now() - t0).as_millis() as u64).unwrap_or(0)
 }
 
